@@ -368,7 +368,16 @@ type cacheSpec struct {
 	OptMask  int // New: which options are passed (1 exp, 2 interval, 4 callback, 8 mincap)
 	Callback func(k int, v any)
 	NKeys    int
+	// options passed BEFORE the ones above and overridden by them (PreMask is a
+	// subset of OptMask): the effective configuration is that of the later options
+	PreMask     int
+	PreDefExp   time.Duration
+	PreInterval time.Duration
+	PreMinCap   int
 }
+
+// preCallbackFired counts invocations of a callback option that a later option replaced.
+var preCallbackFired int64
 
 var cacheFlavors = []string{"Cache", "CacheOf[string,any]", "CacheOf[int,val]", "CacheOf[skey,val]"}
 
@@ -551,6 +560,20 @@ func newCacheOfAd[K comparable, V any](sp cacheSpec, mk func(int) K, in func(any
 		a.c = cache.NewOf[K, V]()
 	default:
 		var opts []cache.OptionOf[K, V]
+		if pm := sp.PreMask & sp.OptMask; pm != 0 {
+			if pm&1 != 0 {
+				opts = append(opts, cache.WithDefaultExpirationOf[K, V](sp.PreDefExp))
+			}
+			if pm&2 != 0 {
+				opts = append(opts, cache.WithCleanupIntervalOf[K, V](sp.PreInterval))
+			}
+			if pm&4 != 0 {
+				opts = append(opts, cache.WithEvictedCallbackOf[K, V](func(K, V) { atomic.AddInt64(&preCallbackFired, 1) }))
+			}
+			if pm&8 != 0 {
+				opts = append(opts, cache.WithMinCapacityOf[K, V](sp.PreMinCap))
+			}
+		}
 		if sp.OptMask&1 != 0 {
 			opts = append(opts, cache.WithDefaultExpirationOf[K, V](sp.DefExp))
 		}
@@ -589,6 +612,20 @@ func newCache(sp cacheSpec) cacheAPI {
 			a.c = cache.New()
 		default:
 			var opts []cache.Option
+			if pm := sp.PreMask & sp.OptMask; pm != 0 {
+				if pm&1 != 0 {
+					opts = append(opts, cache.WithDefaultExpiration(sp.PreDefExp))
+				}
+				if pm&2 != 0 {
+					opts = append(opts, cache.WithCleanupInterval(sp.PreInterval))
+				}
+				if pm&4 != 0 {
+					opts = append(opts, cache.WithEvictedCallback(func(string, interface{}) { atomic.AddInt64(&preCallbackFired, 1) }))
+				}
+				if pm&8 != 0 {
+					opts = append(opts, cache.WithMinCapacity(sp.PreMinCap))
+				}
+			}
 			if sp.OptMask&1 != 0 {
 				opts = append(opts, cache.WithDefaultExpiration(sp.DefExp))
 			}
